@@ -74,6 +74,32 @@ def trapped_addr(ctx):
         ctx.finding(rule, f'{tick.file}:QvmCpu.tick:prev_pc',
                     'tick() does not record prev_pc = pc before fetching',
                     tick.file, tick.line)
+    # instruction handlers signal errors by raising (trap()), which records
+    # the address and abandons the instruction; the dispatcher _trap()
+    # returns, so a handler that calls it goes on executing with the
+    # operands already popped and leaves trapped_addr stale
+    rule_h = 'C10.handlers-signal-errors-by-raising'
+    ctx.rule(rule_h, 'no instruction handler (_exec_*, generated families '
+             'included) calls the non-raising dispatcher self._trap; errors '
+             'go through self.trap, which records trapped_addr and raises')
+    handlers, n_direct, n_gen = R.cpu_handlers(repo)
+    n_h = 0
+    for name, hf in sorted(handlers.items()):
+        n_h += 1
+        for c in ast.walk(hf.node):
+            if isinstance(c, ast.Call) and dotted(c.func) == 'self._trap':
+                arg = unparse(c.args[0]) if c.args else '?'
+                construct = f'{tick.file}:QvmCpu.{name}:_trap({arg})'
+                ctx.instance(rule_h, construct)
+                ctx.finding(rule_h, construct,
+                            f'{name} reports {arg} through self._trap(), '
+                            f'which dispatches and returns: trapped_addr '
+                            f'is not recorded and the handler keeps '
+                            f'executing after the error', tick.file,
+                            c.lineno)
+    ctx.instance(rule_h, f'{tick.file}:QvmCpu:_exec_*',
+                 sample={'handlers_examined': n_h})
+    ctx.floor('instruction handlers examined for _trap calls', n_h, 100)
     trap = repo.func('qvm.cpu', 'QvmCpu.trap')
     ok = any(isinstance(s, ast.Assign) and
              dotted(s.targets[0]) == 'self.trapped_addr' and
